@@ -6,11 +6,11 @@ from harness.build import Scratch
 
 
 def run(chk):
-    chk.assumptions += ["integer rate tables of length <= 4 over -R..R (R = 2 quick, 3 thorough) summing to zero; draws at the "
+    chk.assumptions += ["integer rate tables of length <= 5 (quick) / 6 (thorough) over -2..2 summing to zero; draws at the "
                         "mid-point of every unit piece of the draw interval plus the two end points; near-cancelling float "
                         "tables are outside the lattice"]
     with Scratch() as sc:
-        cfg = "Lifting.cfg" if chk.tier == "thorough" else "Lifting_quick.cfg"
+        cfg = "Lifting_6.cfg" if chk.tier == "thorough" else "Lifting_quick.cfg"
         tab = opcheck.design_and_table(chk, sc, "Lifting", cfg, "harness.drive_lifting", workers=8, timeout=1500)
         if tab:
             chk.sample(tab["rows"][len(tab["rows"]) // 2])
